@@ -119,6 +119,9 @@ BENIGN = (
     "for i in range(2):\n        a = x",
     "q0 = qubit()\n    h(q0)\n    discard(q0)",
     "t = (x, x)",
+    # struct objects mutated at comptime, also with a value of another type for a while
+    "ps = PS(1, 2.5)\n    ps.x = ps.y\n    ps.x = 3",
+    "ps2 = PS(2, 0.5)\n    ps2.y = ps2.x\n    ps2.y = 1.5",
 )
 
 
@@ -284,6 +287,7 @@ def module_source(cfg: dict, m: int, fault: dict | None) -> str:
     for n in SHADOWED:
         src += binding_src(n, mod["bindings"][n])
     src += HELPERS_PY + LOGGED.format(name="logged_same")
+    src += "@guppy.struct\nclass PS:\n    x: int\n    y: float\n\n"
     tgt = cfg["regs"][m]
     call = "x"
     if tgt is not None:
